@@ -13,7 +13,6 @@ Everything is float64: rtol 1e-12 relative to the scale of the distribution.
 from __future__ import annotations
 
 import itertools
-import math
 
 import numpy as np
 from hypothesis import strategies as st
